@@ -99,11 +99,11 @@ def tscale (tmax : K) : K :=
 
 /-- no exit condition at this boundary and at least one particle -/
 def Flags.Clear (f : Flags) : Prop :=
-  f.collision = false ∧ f.user = false ∧ f.escape = false ∧ f.encounter = false ∧
-  f.sigint = false ∧ f.errMsg = false ∧ f.n ≠ 0
+  (f.collision = false ∧ f.user = false ∧ f.escape = false ∧ f.encounter = false ∧
+   f.sigint = false ∧ f.errMsg = false ∧ f.n ≠ 0) ∧ f.stepError = false
 
 theorem runHeartbeat_clear (s : Sim K) (f : Flags) (h : f.Clear) : runHeartbeat s f = s := by
-  obtain ⟨h1, h2, h3, h4, h5, h6, h7⟩ := h
+  obtain ⟨⟨h1, h2, h3, h4, h5, h6, h7⟩, h8⟩ := h
   simp [runHeartbeat, h2, h3, h4]
 
 /-- one step whose boundary has no exit condition -/
@@ -138,8 +138,8 @@ def stepped (step : StepFn K) (k : Nat) (s : Sim K) : Sim K :=
 
 theorem stepAndBeat_clear (step : StepFn K) (k : Nat) (s : Sim K) (f : Flags) (h : f.Clear) :
     stepAndBeat step k s f = stepped step k s := by
-  obtain ⟨h1, h2, h3, h4, h5, h6, h7⟩ := h
-  simp [stepAndBeat, runHeartbeat, h1, h2, h3, h4, h5, stepped]
+  obtain ⟨⟨h1, h2, h3, h4, h5, h6, h7⟩, h8⟩ := h
+  simp [stepAndBeat, runHeartbeat, h1, h2, h3, h4, h5, h8, stepped]
 
 /-! ### reb_check_exit, normal form while RUNNING / LAST_STEP -/
 
@@ -158,9 +158,9 @@ theorem checkExit_run (s : Sim K) (tmax lf : K) (f : Flags)
       else if tmax * copysign 1 s.dt ≤ s.t * copysign 1 s.dt then CE.ret { s with status := 0 } lf
         else CE.ret s lf) := by
   rcases hs with hs | hs
-  · simp [checkExit, exitCountdown, exitTime, exitNoParticles, hs, he, hn, Status.code]
+  · simp [checkExit, checkExitCore, exitCountdown, exitTime, exitNoParticles, hs, he, hn, Status.code]
     split_ifs <;> rfl
-  · simp [checkExit, exitCountdown, exitTime, exitNoParticles, hs, he, hn, Status.code, tscale]
+  · simp [checkExit, checkExitCore, exitCountdown, exitTime, exitNoParticles, hs, he, hn, Status.code, tscale]
     split_ifs <;> rfl
 
 /-! ### fixed-step integrators -/
@@ -256,7 +256,7 @@ theorem loop_nonexact (step : StepFn K) (hfix : IsFixed step) (env : Nat → Fla
     obtain ⟨f, rfl⟩ : ∃ f, fuel = f + 1 := ⟨fuel - 1, by omega⟩
     have hc := copysign_one_dir hsg (by rw [← hdt] at hd; exact hd)
     have hp : tmax * sg ≤ s.t * sg := by simpa using hpast
-    rw [loop_succ, checkExit_run s tmax lf (env k) (Or.inl hst) (henv k).2.2.2.2.2.1 (henv k).2.2.2.2.2.2]
+    rw [loop_succ, checkExit_run s tmax lf (env k) (Or.inl hst) (henv k).1.2.2.2.2.2.1 (henv k).1.2.2.2.2.2.2]
     simp [hex, hc, hp]
     simp [seqOf, hdt, stepSeq]
   | succ n ih =>
@@ -267,7 +267,7 @@ theorem loop_nonexact (step : StepFn K) (hfix : IsFixed step) (env : Nat → Fla
       have := hfirst 0 (by omega)
       simp at this
       exact not_le.mpr this
-    rw [loop_succ, checkExit_run s tmax lf (env k) (Or.inl hst) (henv k).2.2.2.2.2.1 (henv k).2.2.2.2.2.2]
+    rw [loop_succ, checkExit_run s tmax lf (env k) (Or.inl hst) (henv k).1.2.2.2.2.2.1 (henv k).1.2.2.2.2.2.2]
     simp only [hex, if_false, hc, h0]
     simp only [hst]
     rw [if_pos (by norm_num)]
@@ -329,7 +329,7 @@ theorem loop_exact (step : StepFn K) (hfix : IsFixed step) (env : Nat → Flags)
       rcases hdld with h | h <;> simp [h]
     have hce : checkExit s tmax false d (env k) =
         .ret { s with status := -2, syncs := s.syncs + 1, dt := tmax - s.t } d := by
-      rw [checkExit_run s tmax d (env k) (Or.inl hst) (henv k).2.2.2.2.2.1 (henv k).2.2.2.2.2.2]
+      rw [checkExit_run s tmax d (env k) (Or.inl hst) (henv k).1.2.2.2.2.2.1 (henv k).1.2.2.2.2.2.2]
       simp only [hex, if_true, hc, hnear, hne, if_false, hst, hlf]
       simp
     rw [loop_of_ret_neg step env tmax false (f + 1) k s _ d d hce (by norm_num)]
@@ -341,8 +341,8 @@ theorem loop_exact (step : StepFn K) (hfix : IsFixed step) (env : Nat → Flags)
     have hce2 : checkExit (stepped step k { s with status := -2, syncs := s.syncs + 1, dt := tmax - s.t })
         tmax false d (env (k + 1)) =
         .ret { stepped step k { s with status := -2, syncs := s.syncs + 1, dt := tmax - s.t } with status := 0 } d := by
-      rw [checkExit_run _ tmax d (env (k + 1)) (Or.inr (by simp)) (henv (k + 1)).2.2.2.2.2.1
-        (henv (k + 1)).2.2.2.2.2.2]
+      rw [checkExit_run _ tmax d (env (k + 1)) (Or.inr (by simp)) (henv (k + 1)).1.2.2.2.2.2.1
+        (henv (k + 1)).1.2.2.2.2.2.2]
       simp only [stepped_exact, stepped_t, stepped_dt, stepped_status, hex, if_true, e2, hc2, t2, hnear2]
     rw [loop_of_ret_done step env tmax false f (k + 1) _ _ d d hce2 (by norm_num)]
     refine ⟨_, rfl, t2, rfl, ?_, hex, ?_, ?_⟩
@@ -368,7 +368,7 @@ theorem loop_exact (step : StepFn K) (hfix : IsFixed step) (env : Nat → Flags)
     have hfar : ¬ (tmax * sg ≤ (s.t + s.dt) * sg) := by
       rw [hdt, not_le]; nlinarith
     have hce : checkExit s tmax false d (env k) = .ret s d := by
-      rw [checkExit_run s tmax d (env k) (Or.inl hst) (henv k).2.2.2.2.2.1 (henv k).2.2.2.2.2.2]
+      rw [checkExit_run s tmax d (env k) (Or.inl hst) (henv k).1.2.2.2.2.2.1 (henv k).1.2.2.2.2.2.2]
       simp only [hex, if_true, hc, hfar, if_false, hst]
       simp
     rw [loop_of_ret_neg step env tmax false f k s s d d hce (by rw [hst]; norm_num)]
